@@ -24,6 +24,10 @@ M = [
  ("put-ors-wrong-board", "src/board/piece_set.rs", "self.bitboards[piece as usize] |= square;", "self.bitboards[Piece::Pawn as usize] |= square;", "violation", ["C12"]),
  ("toggle-piece-ignores-colour", "src/board/position_info.rs", "[square_num as usize][color as usize];", "[square_num as usize][0];", "violation", ["C05"]),
  ("lose-rights-no-key-update", "src/board/mod.rs", "        self.position_info\n            .update_zobrist_hash_toggle_castling_rights(new_rights);\n        new_rights\n    }\n\n    pub fn pop_castle_rights", "        new_rights\n    }\n\n    pub fn pop_castle_rights", "violation", ["C05"]),
+ ("benign-remove-uses-andnot", "src/board/piece_set.rs", "        self.bitboards[removed_piece as usize] ^= square;\n        self.occupied ^= square;", "        self.bitboards[removed_piece as usize] &= !square;\n        self.occupied &= !square;", "ok", ["C05"]),
+ ("benign-lose-rights-andnot", "src/board/move_info.rs", "let new_rights = old_rights ^ (old_rights & lost_rights);", "let new_rights = old_rights & !lost_rights;", "ok", ["C05"]),
+ ("benign-is-occupied-overlaps", "src/board/mod.rs", "        !(self.occupied() & square).is_empty()", "        self.occupied().overlaps(square)", "ok", ["C05"]),
+ ("benign-put-uses-xor", "src/board/piece_set.rs", "        self.bitboards[piece as usize] |= square;\n        self.occupied |= square;", "        self.bitboards[piece as usize] ^= square;\n        self.occupied ^= square;", "ok", ["C05"]),
  # ---- apply / undo (C03 C04 C12 C16)
  ("castle-undo-forgets-halfmove-pop", "src/chess_move/castle.rs", "        board.pop_halfmove_clock();\n        board.pop_en_passant_target();\n        board.pop_castle_rights();\n\n        Ok(())\n    }\n}\n\nimpl fmt::Display for CastleChessMove", "        board.pop_en_passant_target();\n        board.pop_castle_rights();\n\n        Ok(())\n    }\n}\n\nimpl fmt::Display for CastleChessMove", "violation", ["C04"]),
  ("ep-victim-wrong-direction", "src/chess_move/en_passant.rs", "            Color::White => *to_square >> 8,\n            Color::Black => *to_square << 8,\n        };\n\n        if board.remove", "            Color::White => *to_square << 8,\n            Color::Black => *to_square >> 8,\n        };\n\n        if board.remove", "violation", ["C03"]),
